@@ -71,6 +71,8 @@ def client_api():
               sigs=["name,tags,labels,class,from"])
     fb.method(s, "MoveBook", "MoveBookRequest", "Book", http=("post", "/v1/{book.name=shelves/*/books/*}:move", "*"),
               sigs=["book.name,other_shelf"])
+    fb.method(s, "ClassifyBook", "MoveBookRequest", "Book", http=("post", "/v1/{book.name=shelves/*/books/*}:classify", "*"),
+              sigs=["book.class,other_shelf"])
     fb.method(s, "StreamBooks", "StreamBooksRequest", "Book", http=("get", "/v1/{parent=shelves/*}/books:stream"),
               sigs=["parent"], sstream=True)
     fb.method(s, "Upload", "UploadRequest", "Book", cstream=True)
@@ -94,6 +96,8 @@ def client_api():
               routing=[("app_profile_id", None)])
     fb.method(s, "RouteRename", "RouteRequest", "Book", http=("post", "/v1/{table_name=projects/*}:r2", "*"),
               routing=[("app_profile_id", "{routing_id=**}")])
+    fb.method(s, "RouteOverride", "RouteRequest", "Book", http=("post", "/v1/{table_name=projects/*}:r5", "*"),
+              routing=[("table_name", "{routing_id=projects/*}/**"), ("app_profile_id", "{routing_id=**}")])
     fb.method(s, "RouteMulti", "RouteRequest", "Book", http=("post", "/v1/{table_name=projects/*}:r3", "*"),
               routing=[("table_name", "{routing_id=projects/*}/**"),
                        ("table_name", "{routing_id=projects/*/instances/*}/**"),
